@@ -189,6 +189,27 @@ def rule_after_loop(repo: Repo) -> List[Ob]:
         else:
             obs.append(Ob("E-after-loop", key, f.relpath, ifs[0].lineno, f.qualname, True,
                           "the --after_loop arm conditions on termination and takes the limit; the other arm does neither"))
+    # the limit n->oo is taken of the quantity that is reported, after raw moments were combined into cumulants / central moments:
+    # limits and combinations do not commute when raw moments diverge (oo - oo)
+    for f in repo.functions:
+        if not f.relpath.startswith("cli/"):
+            continue
+        convs = [x for x in walk_no_nested(f.node) if isinstance(x, ast.Call) and (call_name(x) or "") in ("raw_moments_to_cumulants", "raw_moments_to_centrals") and x.args]
+        lims = [x for x in walk_no_nested(f.node) if isinstance(x, ast.Call) and call_name(x) == "transform_to_after_loop"]
+        if not convs or not lims:
+            continue
+        fd = Defs(f.node, f.params()[0] if f.params() and f.cls is not None else None)
+        n += 1
+        keyl = f"{f.relpath}::{f.qualname}::limit-after-combination"
+        early = [cv for cv in convs if any(r.startswith("call:") and r.endswith("transform_to_after_loop") for r in fd.roots(cv.args[0]))]
+        late = [lm for lm in lims if lm.args and any(r.startswith("call:") and r.split(".")[-1] in ("raw_moments_to_cumulants", "raw_moments_to_centrals") for r in fd.roots(lm.args[0]))]
+        if early:
+            obs.append(Ob("E-after-loop", keyl, f.relpath, early[0].lineno, f.qualname, False,
+                          f"`{src(early[0])[:60]}` combines raw moments whose limit n->oo was already taken: for diverging moments the combination is oo - oo (nan) instead of the limit of the combined quantity"))
+        elif late:
+            obs.append(Ob("E-after-loop", keyl, f.relpath, late[0].lineno, f.qualname, True, "the limit is taken of the combined quantity (cumulant / central moment), not of the raw moments"))
+        else:
+            obs.append(inconclusive("E-after-loop", keyl, f.relpath, lims[0].lineno, f.qualname, "order of limit and combination not recognised"))
     g = repo.function("cli/common.py", "get_all_cumulants_after_loop")
     names = {call_name(c) for c in walk_no_nested(g.node) if isinstance(c, ast.Call)}
     ok = "get_all_moments_given_termination" in names and "transform_to_after_loop" in names
@@ -966,22 +987,67 @@ def rule_simulator(repo: Repo) -> List[Ob]:
         verdicts = []
         for mm, call in body_calls:
             cg = cfg_of(mm.node)
-            tests = controlling_tests(cg, node_for(cg, call))
-            guard_tests = [(t, reach) for t, reach in tests if "loop_guard" in src(t.ast) and "evaluate" in src(t.ast)]
-            if not guard_tests:
+            tests = [(t, reach) for t, reach in controlling_tests(cg, node_for(cg, call)) if isinstance(t.ast, ast.expr) and isinstance(reach, bool)]
+            atoms: List[str] = []
+
+            def evb(e, env):
+                if isinstance(e, ast.UnaryOp) and isinstance(e.op, ast.Not):
+                    return not evb(e.operand, env)
+                if isinstance(e, ast.BoolOp):
+                    vals = [evb(v, env) for v in e.values]
+                    return all(vals) if isinstance(e.op, ast.And) else any(vals)
+                k_ = "G" if (isinstance(e, ast.Call) and call_name(e) == "evaluate" and "loop_guard" in src(e.func)) else "U:" + src(e)
+                if k_ not in atoms:
+                    atoms.append(k_)
+                return env.get(k_, False)
+
+            def runs(env):
+                return all(evb(t.ast, env) == reach for t, reach in tests)
+            runs({})
+            for _ in range(2):
+                for bits in range(2 ** len(atoms)):
+                    runs({a_: bool(bits >> i_ & 1) for i_, a_ in enumerate(atoms)})
+            if "G" not in atoms:
                 verdicts.append((False, call, mm, "the loop body is executed without testing the loop guard on the current state: the state does not freeze when the guard is false"))
+            elif len(atoms) > 6:
+                verdicts.append((True, call, mm, "guard test too large to tabulate"))
             else:
-                t, reach = guard_tests[0]
-                negated = isinstance(t.ast, ast.UnaryOp) and isinstance(t.ast.op, ast.Not)
-                ok = (reach is True and not negated) or (reach is False and negated)
-                verdicts.append((ok, call, mm, "the body runs exactly when the guard holds in the current state; otherwise the previous state is kept" if ok else
+                envs = [{a_: bool(bits >> i_ & 1) for i_, a_ in enumerate(atoms)} for bits in range(2 ** len(atoms))]
+                wrong = [e_ for e_ in envs if not e_["G"] and runs(e_)]
+                verdicts.append((not wrong, call, mm, "the body runs only when the guard holds in the current state; otherwise the previous state is kept" if not wrong else
                                  "the loop body runs when the guard is FALSE"))
+            # what decides whether the body runs must not be carried over from the previous run: a local that is written inside the per-sample
+            # loop and read there before it is written again (on some path) still holds the value of the previous sample
+            if True:
+                sample_heads = [n_ for n_ in cg.nodes if n_.kind == "test" and n_.label == "for" and "samples" in src(n_.ast)]
+                if sample_heads:
+                    h_ = sample_heads[0]
+                    deciding = {x.id for t, _ in tests for x in ast.walk(t.ast) if isinstance(x, ast.Name)} | {x.id for a_ in call.args for x in ast.walk(a_) if isinstance(x, ast.Name)}
+                    inside = {n_ for n_ in cg.nodes if n_ is not h_ and any(b_ is n_ or cg.reachable(b_, n_, avoid={h_}) for b_, lab in cg.succ[h_] if lab is True)}
+
+                    def stores(n_, v):
+                        return n_.ast is not None and any(isinstance(x, ast.Name) and x.id == v and isinstance(x.ctx, ast.Store) for x in ast.walk(n_.ast) if not isinstance(n_.ast, (ast.For, ast.While)) or True)
+
+                    def loads(n_, v):
+                        return n_.ast is not None and any(isinstance(x, ast.Name) and x.id == v and isinstance(x.ctx, ast.Load) for x in ast.walk(n_.ast))
+                    for v in sorted(deciding):
+                        st_in = [n_ for n_ in inside if stores(n_, v) and not (n_.kind == "test" and n_.label == "for")]
+                        if not st_in:
+                            continue
+                        pure_stores = {n_ for n_ in st_in if not loads(n_, v)}
+                        entries = [b_ for b_, lab in cg.succ[h_] if lab is True]
+                        stale = [n_ for n_ in inside if loads(n_, v) and any(b_ is n_ or cg.reachable(b_, n_, avoid=pure_stores | {h_}) for b_ in entries if b_ not in pure_stores)]
+                        if stale:
+                            verdicts.append((False, call, mm, f"`{v}` decides whether / on what the loop body runs, is written inside the per-sample loop and is read there before it is "
+                                             f"written again (line {stale[0].lineno}): the value of the previous run is used, runs are not independent"))
         bad = [v for v in verdicts if not v[0]]
         okv, call, mm, msg = (bad or verdicts)[0]
         obs.append(Ob("S-simulator", key, rp, call.lineno, mm.qualname, okv, msg))
     # every run starts with the initial block on an empty state
     f = repo.function(rp, "Simulator.simulate")
     key = f"{rp}::Simulator.simulate::initial"
+    from ..shape import expanded as _expanded
+    fsim = _expanded(repo, f)          # the per-sample loop may have been moved into a helper of the simulator
 
     def runs_initial(fn_node, selfn):
         """nodes of fn that execute the initial block (directly, or through a helper that always does)"""
@@ -1001,9 +1067,9 @@ def rule_simulator(repo: Repo) -> List[Ob]:
                         if hn and all(hc.postdominates(y, hc.entry) or hc.dominates(y, hc.exit) for y in hn[:1]):
                             out.append(n)
         return out
-    cgf = cfg_of(f.node)
+    cgf = cfg_of(fsim)
     sample_loops = [n for n in cgf.nodes if n.kind == "test" and n.label == "for" and "samples" in src(n.ast)]
-    init_nodes = runs_initial(f.node, f.params()[0])
+    init_nodes = runs_initial(fsim, f.params()[0])
     if not sample_loops or not init_nodes:
         any_init = any(isinstance(x, ast.Call) and call_name(x) == "execute" and x.args and src(x.args[0]).endswith(".initial") for mm in sim.all_methods for x in walk_no_nested(mm.node))
         if not any_init:
